@@ -41,6 +41,7 @@ def check(ctx) -> Result:
     res.floor("A4 typed size tests", n4, 1)
     n5 = ra_modes.a5_passthrough(ctx, res, add)
     res.floor("A5 pass-through insertions", n5, 1)
+    ra_modes.swap_append_guard(ctx, res, add)
     # ---- L
     nl = 0
     for rel in L_FILES:
@@ -190,4 +191,7 @@ def check(ctx) -> Result:
             "a Group is only built (under `group`) from the copy on which unpack_groups() was called: groups never nest",
             f"the spec wrapped in a Group may itself contain groups (unpacked copy selected under `group`: {sel_ok}; unpack_groups on the copy: {ok_unp}; Group built only when grouping: {under_group}); nested groups make unpacking loop forever and break compression/adjacency rewrites",
             construct="Group typestate")
+    from ..rules import rz_falsy
+    nz = rz_falsy.none_checks(ctx, res, "C02", ())
+    res.floor("Z functions scanned", nz, 3)
     return res
